@@ -114,6 +114,13 @@ def gen_cases(pid, tier, seed):
         c["points"] = [[[x.numerator, x.denominator] for x in p] for p in pts]
         c["alpha"] = rng.choice([0, 1, 0.5, 1.0, 0.0, cg.val(cg.dyadic(rng.uniform(-2, 2), 8)), 0.25, -1.5])
         c["beta"] = rng.choice([0, 0.0, 1, cg.val(cg.dyadic(rng.uniform(-2, 2), 8)), 0.75])
+        # parameters NEAR (not at) the special values 0, 1/2, 1 for which whole families of terms drop out of the
+        # definitions: a scan in alpha, a finite-difference step, a round-off such as 0.1 * 10 - 1e-6
+        near = {1: (1.0 - 2.0 ** -18, None), 2: (0.5 + 2.0 ** -19, None), 3: (None, 2.0 ** -19), 4: (1.0 + 2.0 ** -19, -2.0 ** -18),
+                6: (2.0 ** -20, 1.0 - 2.0 ** -18)}.get(d % 7)
+        if near:
+            c["alpha"] = near[0] if near[0] is not None else c["alpha"]
+            c["beta"] = near[1] if near[1] is not None else c["beta"]
         c["orders"] = [list(o) for o in rng.sample(list(itertools.product(range(5), repeat=3)), 3 if quick else 8)] + [[4, 4, 4]] * (d == 0) \
             + [[3, 0, 1], [2, 2, 0], [0, 0, 0]]
         out.append(c)
